@@ -657,6 +657,29 @@ def r_scalar_constants(c):
                 nonfinite_plain += 1
             if not known_nonneg:
                 neg_plain += 1
+    # a typed (NumPy) scalar keeps its type on the way into the source: after raising
+    # has dropped the cast of the array operand, the typed constant is what makes
+    # NumPy evaluate in the wider dtype; `e.item()` / float(e) / int(e) emit a weak
+    # Python literal instead
+    import re as _re
+    weak = []
+    for cs, ev in tab.items():
+        cs = dict(cs)
+        if any(v for k, v in cs.items() if k.startswith("isinstance(") and "Array" in k):
+            continue
+        if any((not v) for k, v in cs.items() if "isfinite" in k):
+            continue        # built from the dtype's name and a string
+        for e_ in ev:
+            if e_[0] == "exit" and e_[1].startswith("return ") and _re.search(
+                    r"\b" + _re.escape(ep) + r"\.(item|tolist)\(\)|\b(float|int|complex|bool)\("
+                    + _re.escape(ep) + r"\)", e_[1]):
+                weak.append(e_[1])
+    c.check(not weak, "R14-TABLES", "NumpyCodegenMapper._rec_ary_or_constant",
+            "typed-scalars-keep-their-type", where,
+            f"a finite scalar is converted to a Python scalar before it is emitted "
+            f"(`{weak[0][:70] if weak else ''}`): x_int8 + np.int64(100) is then evaluated in int8 "
+            "(the typed constant is what drives NumPy's promotion once the cast on the "
+            "array operand has been dropped)")
     c.check(plain >= 1 and nonfinite_plain == 0, "R14-TABLES",
             "NumpyCodegenMapper._rec_ary_or_constant", "non-finite-scalars-built-from-a-string",
             where, "a scalar that may be inf/nan is emitted through ast.Constant (its repr): "
